@@ -184,3 +184,30 @@ func HeaderCountFile(pkg, goName string) *spec.File {
 	}
 	return f
 }
+
+// SharedRequestFile: one request message used by several RPCs (bodiless and body verbs, two
+// services, with and without path variables) — per-message state kept by a generator must not
+// carry over from one RPC to the next.
+func SharedRequestFile(pkg, goName string) *spec.File {
+	f := &spec.File{Path: "misc/" + goName + "/shared_req.proto", Package: pkg, GoImport: "lab/gen/" + goName, GoName: goName}
+	f.Messages = []*spec.Message{
+		{Name: "NoteRef", Fields: []*spec.Field{spec.F("note_id", 1, spec.String), spec.F("rev", 2, spec.Int64).Q("rev")}},
+		{Name: "OrgRef", Fields: []*spec.Field{spec.F("org_id", 1, spec.String), spec.F("note_id", 2, spec.String), spec.F("dry_run", 3, spec.Bool).Q("dry_run")}},
+		{Name: "Note", Fields: []*spec.Field{spec.F("note_id", 1, spec.String), spec.F("text", 2, spec.String)}},
+	}
+	in := func(m string) string { return "." + pkg + "." + m }
+	f.Services = []*spec.Service{
+		{Name: "NoteService", BasePath: spec.S("/v1"), Methods: []*spec.Method{
+			{Name: "GetNote", In: in("NoteRef"), Out: in("Note"), HTTP: &spec.HTTP{Path: "/notes/{note_id}", Verb: 1}},
+			{Name: "DeleteNote", In: in("NoteRef"), Out: in("Note"), HTTP: &spec.HTTP{Path: "/notes/{note_id}", Verb: 4}},
+			{Name: "TouchNote", In: in("NoteRef"), Out: in("Note"), HTTP: &spec.HTTP{Path: "/notes/{note_id}/touch", Verb: 2}},
+			{Name: "GetOrgNote", In: in("OrgRef"), Out: in("Note"), HTTP: &spec.HTTP{Path: "/orgs/{org_id}/notes/{note_id}", Verb: 1}},
+			{Name: "PutNote", In: in("Note"), Out: in("Note"), HTTP: &spec.HTTP{Path: "/notes/{note_id}", Verb: 3}},
+		}},
+		{Name: "ArchiveService", BasePath: spec.S("/v1/archive"), Methods: []*spec.Method{
+			{Name: "DropOrgNote", In: in("OrgRef"), Out: in("Note"), HTTP: &spec.HTTP{Path: "/orgs/{org_id}/notes/{note_id}", Verb: 4}},
+			{Name: "PeekNote", In: in("NoteRef"), Out: in("Note"), HTTP: &spec.HTTP{Path: "/notes/{note_id}", Verb: 1}},
+		}},
+	}
+	return f
+}
